@@ -113,6 +113,7 @@ MAYPANIC = {
     "Result<T, E>::unwrap": (GUARD, "must be Ok"),
     "Result<T, E>::expect": (GUARD, "must be Ok"),
     "char::encode_utf16": (GUARD, "destination must hold 2 units"),
+    "Vec<T, A>::drain": (GUARD, "range must lie inside the vector"),
 }
 
 # Call sites of needs-guard callees that rest on an invariant: (function key, callee key) -> (max count, reason)
@@ -207,6 +208,26 @@ def _owner_fn(core, cg):
     return owner, users
 
 
+def _read_bytes_count(ln):
+    """`len(payload of read_bytes(_, n)?)` -> n"""
+    ln = mir.strip_refs(ln)
+    if not (isinstance(ln, tuple) and ln[0] == "len"):
+        return None
+    x = mir.strip_refs(ln[1])
+    for _ in range(8):
+        if not isinstance(x, tuple):
+            return None
+        if x[0] == "field" and isinstance(x[1], tuple) and x[1][0] == "variant" and x[1][2] in ("Continue", "Ok"):
+            x = mir.strip_refs(x[1][1])
+        elif x[0] == "call" and x[1] == "<Result<T, E> as Try>::branch" and x[3]:
+            x = mir.strip_refs(x[3][0])
+        elif x[0] == "call" and (x[1] == "BinaryInput::read_bytes" or x[1].endswith(" as BinaryInput>::read_bytes")) and len(x[3]) == 2:
+            return x[3][1]
+        else:
+            return None
+    return None
+
+
 def _operand_ty(o):
     if "const" in o:
         return o["const"]["ty"]["s"]
@@ -276,6 +297,13 @@ def discharge_assert(body, ex, facts, bb, t):
         return None
     if kind == "BoundsCheck":
         ln, idx = exprs
+        # the slice a successful BinaryInput::read_bytes(n) hands back is input[cursor .. cursor + n] (rule P4, all three
+        # sources): its length is n
+        n = _read_bytes_count(ln)
+        if n is not None:
+            rn, ri = guards.rng(n), guards.rng(idx)
+            if rn and ri and rn[0] == rn[1] and 0 <= ri[0] and ri[1] < rn[0]:
+                return "index %d..%d < %d = length of the slice returned by read_bytes(%d) (P4)" % (ri[0], ri[1], rn[0], rn[0])
         for (aop, x, y), d in atoms:
             if guards.implies_lt([(aop, x, y)], idx, ln):
                 if not ((guards.fields_read(idx) | guards.fields_read(ln)) & guards.stores_between(body, d, bb)):
@@ -312,6 +340,11 @@ def _site_discharge(body, ex, facts, bb, t, info):
         for x in mir.walk_expr(args[1]):
             if x[0] == "cast" and x[1] == "Unsize" and ("[u16; 2]" in x[2] or "[u16; 2_usize]" in x[2]):
                 return "destination is a [u16; 2]"
+        return None
+    if key == "Vec<T, A>::drain":
+        r_ = mir.strip_refs(args[1]) if len(args) > 1 else None
+        if isinstance(r_, tuple) and r_[0] == "agg" and r_[2] and r_[2].endswith("RangeFull"):
+            return "full range"
         return None
     if "Index" in key:
         # v[const] under a dominating `!v.is_empty()` / len comparison; range-full indexing
